@@ -124,12 +124,13 @@ def flavour(tag, text):
 
 
 def run_plan(pid, tier, plan, prefixes, need_witnesses=(), crash_is_violation=False, conformance_limit=150, level='model_checking',
-             extra_cov=None, post=None, assumptions=()):
+             extra_cov=None, post=None, assumptions=(), pre_cov=None):
     run = common.Run(pid, level, tier)
     try:
         build.build()
     except RuntimeError as e:
         raise common.HarnessError(str(e))
+    pre = pre_cov(run) if pre_cov else {}      # cheap enumerations first: a long search must not starve them of time
     tot_states = tot_trans = tot_conf = 0
     per = []
     witnesses = set()
@@ -193,6 +194,7 @@ def run_plan(pid, tier, plan, prefixes, need_witnesses=(), crash_is_violation=Fa
                           'trace monitors written from the property statement; states are canonical dumps of the daemon + monitor state; "fixpoint": true means the '
                           'search closed, i.e. histories of every length over that alphabet are covered; traces_validated_against_impl counts BFS-tree histories replayed '
                           'through the unmodified daemon binary over a real pipe with byte-identical stdout'}
+    cov.update(pre)
     if extra_cov:
         cov.update(extra_cov(run) if callable(extra_cov) else extra_cov)
     return run.finish(cov, assumptions=list(assumptions) + [
